@@ -72,6 +72,20 @@ def wl(ctx, config):
             got = lib_agg(ctx, config, B, parts)
             ctx.ev("halfagg_inc", "composition:n%s" % ("<=8" if k <= 8 else ">8"), True, k, parts, agg)
             ctx.check(got == agg, "halfagg_inc:composition_differs_from_oneshot", "n=%d parts=%s want %s got %s" % (k, parts, agg[-32:].hex(), got[-32:].hex() if got else None), config)
+        # schedules with EMPTY parts: n_new = 0 with the new-signature array passed as NULL (allowed by the header) or as an empty non-NULL
+        # array, at the start, in the middle and at the end; the bytes stay those of the one-shot aggregate
+        if 1 <= k <= 12:
+            buflen = 32 * (k + 1); objs = b''.join(B.obj); msgs = b''.join(B.msg); n1 = rng.randrange(0, k + 1)
+            cur = b''; done = 0; okz = True
+            for part, nul in ((0, True), (n1, False), (0, True), (0, False), (k - n1, False), (0, True)):
+                sg = None if (part == 0 and nul) else (b''.join(B.sig[done:done + part]) or b'')
+                rz = ctx.call("halfagg_inc", cur, buflen, buflen, objs[:64 * (done + part)] or b'', msgs[:32 * (done + part)] or b'', sg, done, part, config=config)
+                if rz is None: okz = None; break
+                if rz.ret != 1: okz = False; break
+                cur = rz.b(2)[:rz.i(1)]; done += part
+            if okz is not None:
+                ctx.ev("halfagg_inc", "schedule_with_empty_parts", True, k, n1, agg)
+                ctx.check(okz and cur == agg, "halfagg_inc:schedule_with_empty_parts:%s" % ("differs_from_oneshot" if okz else "refused"), "n=%d n1=%d" % (k, n1), config)
         # a refused incremental step in the middle of a schedule (one of the NEW keys, not the first, is a zeroed x-only key object; also a
         # too-small buffer), then the same step again with valid arguments on the buffer as the refused call left it: the schedule of
         # successful steps must still give the one-shot bytes
